@@ -523,12 +523,13 @@ pub fn gen_item(r: &mut Rng, cfg: &GenCfg) -> Item {
 }
 
 pub fn gen_chunk(r: &mut Rng, cfg: &GenCfg) -> Chunk {
-    let n = match r.below(6) {
+    let n = match r.below(if cfg.big { 7 } else { 6 }) {
         0 => 0,
         1 | 2 => 1,
         3 => 2,
         4 => 3,
-        _ => r.range(0, 6),
+        5 => r.range(0, 6),
+        _ => r.range(7, 40),
     };
     Chunk { ssrc: r.u32_biased(), items: (0..n).map(|_| gen_item(r, cfg)).collect() }
 }
